@@ -528,6 +528,10 @@ func trimWhitespace(t *Tree, s string) string {
 		}
 
 		if len(str) == 0 {
+			// an empty line keeps its line-break
+			if i != len(lines)-1 {
+				trimmed += "\n"
+			}
 			continue
 		}
 
